@@ -174,6 +174,31 @@ def c16b(prog, rep):
     rep.floor(R, "Ok returns", len(ok_return_blocks(b)), 2)
 
 
+def unchanged_skip_is_exact(prog, rep, R):
+    """Files mode leaves a file unwritten only when the decoded text and the formatted text are equal as whole strings (`==`): any weaker
+    notion of `unchanged` (line-wise, trimmed, length) would leave line terminators, blanks or characters as they were in the input."""
+    from panic import dominating_conditions
+    b = prog.body(FF + "format_files::{closure#0}")
+    if not rep.check(b is not None, R, "anchor:format_files-closure", "format_files closure not found"):
+        return
+    og = origins(b)
+    wf = b.calls_to(FF + "write_file")
+    exact = 0
+    for okb in ok_return_blocks(b):
+        if wf and b.dominates(wf[0].bb, okb):
+            continue
+        skip = False
+        for c in dominating_conditions(b, okb):
+            if c[0] == "call" and c[1].endswith("eq") and c[3] is True and (c[1].endswith("PartialEq::eq") or "str" in c[1] or "String" in c[1] or c[1].endswith("::eq")):
+                a0, a1 = og.of_operand(c[2][0]), og.of_operand(c[2][1])
+                if any(x[0] == "param" and x[1] == 4 and "contents" in x[2] for x in a0) and any(x[0] == "param" and x[1] == 5 for x in a1):
+                    skip = True
+        exact += 1 if skip else 0
+        rep.check(skip, R, "skip-arm-is-whole-text-equality:bb%d" % okb, "format_files reports success without writing under a condition other than `decoded contents == formatted output`",
+                  where="%s:%d" % (b.file, b.line), instance={"skip_condition": "decoded_file.contents == formatted_output"})
+    rep.floor(R, "unchanged-skip arms", exact, 1)
+
+
 def c16c(prog, rep):
     R = "C16.c"
     b = prog.body(FF + "write")
